@@ -206,7 +206,7 @@ class SolverWorld(World):
         r = rng.random()
         seed = rng.randrange(10 ** 9)
         if r < 0.45:
-            return {"k": "energy", "seed": seed, "mode": rng.choice(["fresh", "fresh", "zeros", "same_again", "big"])}
+            return {"k": "energy", "seed": seed, "mode": rng.choice(["fresh", "fresh", "zeros", "same_again", "big", "nearby", "nearby"])}
         if r < 0.8:
             return {"k": "opexp", "op": rng.choice(["N", "Sz", "S^2", "qubit", "qubit", "fermion"]), "seed": seed,
                     "theta_none": rng.random() < 0.3}
@@ -221,6 +221,9 @@ class SolverWorld(World):
             return [0.0] * n
         if mode == "same_again" and self.last_theta is not None and len(self.last_theta) == n:
             return list(self.last_theta)
+        if mode == "nearby" and self.last_theta is not None and len(self.last_theta) == n:
+            # a vector very close to the previous one (what a finite-difference gradient or a line search evaluates)
+            return [v + rng.choice([1e-4, -1e-4, 2e-4, 0.0]) for v in self.last_theta]
         scale = 7.0 if mode == "big" else 1.0
         return [round(rng.uniform(-scale, scale), 5) or 0.1 for _ in range(n)]
 
@@ -365,6 +368,7 @@ class SolverWorld(World):
             q = fermion_to_qubit_mapping(fermion_operator=my, mapping=cfg["mapping"], n_spinorbitals=self.mol.n_active_sos,
                                          n_electrons=self.mol.n_active_electrons, up_then_down=cfg["utd"], spin=self.mol.active_spin)
             expected_op = {t: complex(c) for t, c in q.terms.items()}
+        psi_before = self._state(with_solver_ref=False)[0] if th is None else None
         try:
             got = quiet(s.operator_expectation, arg, (np.array(th) if th is not None else None), **kwargs)
         except Exception as ex:
@@ -380,6 +384,14 @@ class SolverWorld(World):
             self.last_theta = th
         # operator_expectation documents ref_state + ansatz.circuit (+ projective): the solver-level ref_state is not prepended
         psi, _ = self._state(with_solver_ref=False)
+        if psi_before is not None:
+            # var_params=None is documented as "the current parameters of the ansatz": the call must not move the state
+            ctx.check("C08.state_unchanged_by_default_parameters")
+            if R.phase_dist(psi, psi_before) > 1e-7:
+                V.append(Violation("C08", "default-parameters-are-not-the-current-ones", f"{site}:operator_expectation:{kind}",
+                                   {"dist": R.phase_dist(psi, psi_before), "config": self._brief()}))
+                self._resync()
+                return V
         nq = max(self.n, M.n_qubits_of(expected_op))
         if nq != self.n:
             ctx.outcome("opexp", "skipped-wider-operator")
